@@ -420,3 +420,87 @@ def run(ctx):
             if badg is None and not ({"after:AddToAmm", "after:RemoveFromAmm"} <= kinds):
                 badg = "post-trade prices compared: %s (both directions expected)" % sorted(kinds)
             ctx.inst("R15.6", "compared-price:%s" % short_fn(g), badg is None, g.where(), badg or "compares %s with the band%s" % (sorted(kinds), " (SwapOutput convention)" if flip else ""))
+
+
+    # ---------------------------------------------------------------- R15.7
+    # the answer the engine's ClosePosition relies on: IsOverFluctuationLimit says `false` exactly when the limit is off or
+    # the simulated price is inside the band - lower <= price <= upper, both ends included (R15.2's convention) - and `true`
+    # only when one of the two bounds is violated.  (Blind sweep: `&&` -> `||`, swapped answers and a strict bound in the
+    # final test were reported by nothing; R15.6 decides the operands, this decides what is answered.)
+    ctx.rule("R15.7", "IsOverFluctuationLimit answers false iff the limit is zero or lower <= simulated price <= upper (inclusive), true otherwise", 1)
+    try:
+        qa7 = arms.Arm(ix, VAMM, "IsOverFluctuationLimit", entry="query")
+        bad7 = None
+        n_false = n_true = 0
+
+        def bound_rel(at, o):
+            """('upper'|'lower', price_inside_that_bound: bool) for a comparison of something with a band component"""
+            a2 = ix.inline(qa7.c(at))
+            if tag(a2) != "op" or payload(a2)[0] not in ("lt", "le", "gt", "ge") or len(kids(a2)) != 2 or o not in (True, False):
+                return None
+            nm = payload(a2)[0]
+            l, r = (ix.inline(k) for k in kids(a2))
+
+            def comp(v):
+                v0 = v
+                while tag(v0) in ("unwrap",):
+                    v0 = kids(v0)[0]
+                if tag(v0) == "field" and payload(v0)[0] in ("0", "1"):
+                    b0 = kids(v0)[0]
+                    while tag(b0) in ("unwrap",):
+                        b0 = kids(b0)[0]
+                    if tag(b0) == "call":
+                        return "upper" if payload(v0)[0] == "0" else "lower"
+                return None
+            cl, cr = comp(l), comp(r)
+            if (cl is None) == (cr is None):
+                return None
+            if cr is not None:
+                which, price_op = cr, nm            # price <op> bound
+            else:
+                which, price_op = cl, {"lt": "gt", "le": "ge", "gt": "lt", "ge": "le"}[nm]   # bound <op> price
+            truth = {"lt": "<", "le": "<=", "gt": ">", "ge": ">="}[price_op]
+            if not o:
+                truth = {"<": ">=", "<=": ">", ">": "<=", ">=": "<"}[truth]
+            return which, truth
+        cases = []
+        for q in qa7.ok_paths():
+            r7 = ix.inline(qa7.c(sym.unwrap(q.ret)))
+            base = [(at, o) for (at, o, _b, _l) in q.conds]
+            if tag(r7) == "bool":
+                cases.append((r7, base))
+                continue
+            # the answer is the last comparison itself (`Ok(a > u || a < l)`): both of its outcomes, as if branched on
+            pol = True
+            r8 = r7
+            while tag(r8) == "op" and payload(r8)[0] == "not" and kids(r8):
+                r8, pol = kids(r8)[0], not pol
+            if tag(r8) == "op" and payload(r8)[0] in ("lt", "le", "gt", "ge"):
+                cases.append((sym.boolc(pol), base + [(r8, True)]))
+                cases.append((sym.boolc(not pol), base + [(r8, False)]))
+            else:
+                bad7 = bad7 or "a success path answers %s, not the outcome of the band test" % sym.show(r7, 4)
+        for (r7, conds7) in cases:
+            rels = {}
+            limit_off = False
+            for (at, o) in conds7:
+                br = bound_rel(at, o)
+                if br:
+                    rels[br[0]] = br[1]
+                a3 = ix.inline(qa7.c(at))
+                if tag(a3) == "op" and payload(a3)[0] == "is_zero" and o is True and guards.is_field_of_item(ix, kids(a3)[0], VAMM, "margined_vamm:config", "fluctuation_limit_ratio"):
+                    limit_off = True
+            if not payload(r7)[0]:
+                n_false += 1
+                if not limit_off and not (rels.get("upper") == "<=" and rels.get("lower") == ">="):
+                    bad7 = bad7 or "answers false (inside the band) on a path with price %s upper, price %s lower" % (rels.get("upper", "?"), rels.get("lower", "?"))
+            else:
+                n_true += 1
+                if limit_off:
+                    bad7 = bad7 or "answers true although the fluctuation limit is zero"
+                elif not (rels.get("upper") == ">" or rels.get("lower") == "<"):
+                    bad7 = bad7 or "answers true (outside the band) on a path with price %s upper, price %s lower" % (rels.get("upper", "?"), rels.get("lower", "?"))
+        ctx.inst("R15.7", "query-answer:IsOverFluctuationLimit", bad7 is None and n_false >= 2 and n_true >= 1, qa7.fn.where(),
+                 bad7 or "%d paths answer false (limit off, or lower <= price <= upper), %d answer true (a bound violated)" % (n_false, n_true))
+    except KeyError as e:
+        ctx.lost("R15.7", str(e))
